@@ -82,7 +82,7 @@ static int init_pubsub_fd(m_mod_t *mod) {
 static int manage_srcs(m_mod_t *mod, m_ctx_t *c, int flag, bool stop) {
     int ret = 0;
 
-    for (int i = 0; i < M_SRC_TYPE_END; i++) {
+    for (int i = 0; i < M_SRC_TYPE_END; i++) M_VERIF_LOOP(mod_kinds) {
         m_itr_foreach(mod->srcs[i], M_VERIF_LOOP(mod_srcs) {
             ev_src_t *t = m_itr_get(m_itr);
             if (flag == RM && stop) {
